@@ -132,7 +132,7 @@ def all_loops(ctx):
     if not ok:
         ctx.broken.append({'kind': 'harness', 'name': 'jinja_frag list_loops', 'detail': str(res)[-1000:]}); return
     loops = res['loops']
-    frags = [{k: l[k] for k in ('gen', 'template', 'attr', 'index', 'decl_class')} for l in loops if not l['unsupported']]
+    frags = [dict({k: l[k] for k in ('gen', 'template', 'attr', 'index', 'decl_class')}, macros=l.get('macros') or None) for l in loops if not l['unsupported']]
     for fr in frags:
         if fr['attr'] == 'flags' and fr['gen'] in ('cpp', 'objc', 'cppcli') and fr['template'].startswith('header/'):
             fr['counter'] = True       # these loops run inside {% set counter = namespace(value=0) %}
